@@ -3,9 +3,10 @@ the value as laid out in this process (sets/frozensets in iteration order) and i
 
 stdin : one JSON document per line  {"id": <str>, "spec": <spec>}
 stdout: one line per spec           <id> TAB <laid-out value text> TAB get_hash(v) TAB get_hash(data=serialize()) TAB
-        backend.record_value(v) TAB Argument.value_hash TAB CallNode.value_hash TAB CallNode.args_hash of a real call ident(v) ("-" unless "sched")
+        backend.record_value(v) TAB Argument.value_hash TAB CallNode.value_hash TAB CallNode.args_hash of a real call ident(v) ("-" unless "sched") TAB get_hash(v) once more
 spec  : ["N"] ["T"] ["F"] ["i", n] ["f", float.hex()] ["s", str] ["b", hex] ["L", [..]] ["U", [..]] ["D", [[k, v], ..]]
         ["S", [..]] (elements are inserted in this order) ["FS", [..]] ["O", cls, [..]]
+        ["X", cls, spec]        instance of a subclass (SetSub, FSetSub, ListSub, DictSub, TupleSub, StrSub, IntSub) of a builtin
         ["R", "L"|"U", n, row]  list / tuple holding the same row OBJECT n times (equal to ["L"|"U", [row] * n] built apart)
 argv  : <repo path> [fwd | rev | even | odd | evenrev | oddrev]   order in which the specs are hashed / which half of
         the spec indices is hashed at all (a process with another history)
@@ -51,6 +52,38 @@ class CP2:
 CLASSES = {"K1": K1, "K2": K2, "M2": M2, "CP2": CP2}
 
 
+class SetSub(set):
+    """a tag collection: subclass of a type that has a registered proxy (Set)"""
+
+
+class FSetSub(frozenset):
+    pass
+
+
+class ListSub(list):
+    pass
+
+
+class DictSub(dict):
+    pass
+
+
+class TupleSub(tuple):
+    pass
+
+
+class StrSub(str):
+    pass
+
+
+class IntSub(int):
+    pass
+
+
+SUBCLASSES = {"SetSub": (SetSub, set), "FSetSub": (FSetSub, frozenset), "ListSub": (ListSub, list), "DictSub": (DictSub, dict),
+              "TupleSub": (TupleSub, tuple), "StrSub": (StrSub, str), "IntSub": (IntSub, int)}
+
+
 def build(sp):
     t = sp[0]
     if t == "N":
@@ -83,6 +116,8 @@ def build(sp):
         return s
     if t == "FS":
         return frozenset([build(x) for x in sp[1]])
+    if t == "X":                        # ["X", cls, spec of a value of the base type]: cls(base value)
+        return SUBCLASSES[sp[1]][0](build(sp[2]))
     if t == "O":
         obj = CLASSES[sp[1]](*[build(x) for x in sp[2]])
         if sp[1] == "CP2":
@@ -93,6 +128,9 @@ def build(sp):
 
 def text(v):
     t = type(v)
+    if t.__name__ in SUBCLASSES and SUBCLASSES[t.__name__][0] is t:
+        # pickle (copyreg) writes the class by reference and builtin(value): that copy is what gets laid out
+        return "(X " + t.__name__ + " " + text(SUBCLASSES[t.__name__][1](v)) + ")"
     if v is None:
         return "N"
     if t is bool:
@@ -170,6 +208,10 @@ def main():
             h2 = backend.record_value(v)
         except Exception as e:  # noqa: BLE001
             h2 = err(e)
+        try:                                    # ... and again, now that the registry has seen the type (get_type_name)
+            h3 = reg.get_hash(v)
+        except Exception as e:  # noqa: BLE001
+            h3 = err(e)
         arg = res = argsh = "-"
         if doc.get("sched"):                    # a real task call: recorded argument and result hashes
             try:
@@ -190,7 +232,7 @@ def main():
                 arg = res = argsh = err(e)
         if text(v) != layout:
             layout = "!layout-changed"
-        out.append("\t".join([doc["id"], layout, h0, h1, h2, arg, res, argsh]))
+        out.append("\t".join([doc["id"], layout, h0, h1, h2, arg, res, argsh, h3]))
     sys.stdout.write("\n".join(out) + "\n")
 
 
